@@ -245,6 +245,14 @@ arbitrary texts ≤ 4 cells (only ValueError may escape). Repaired: empty intege
 part (e4c2b99), fractions below 1e-4 (7a7bec9). Seeds 4/4. ≈ 10 s.
 Session 3: `parse_hms` history jobs (a text of the sibling shape - last field with / without a fraction, digits of its
 own - parsed first, then every clause, the result type included). Seeds 6/6.
+Session 4: `format_seconds_as_time` history jobs (`fmt-history`: one earlier call with a duration of its own - fresh symbolic
+S in 0..59 and any V - at the same precision in the quick tier, every (prec, earlier prec) pair in the thorough tier; then every
+clause of the frac8 job) and `round(frac, n)` on the fraction proxy (any W/10**n compatible with V, candidates replayed). Quick is
+now ≈ 190 s (19863 paths, 83975 obligations). Honest status: the round-5 seed `frac-text-memo-millisecond-key` (memo keyed by
+`(round(frac, 3), prec)`) is NOT reported as a violation - the run ends INCONCLUSIVE (exit 2) with "hash of symbolic float":
+`dict.get` with a tuple key holding a symbolic float is not routed to the symbolic-key side table (`symrun/shadow.py sx_method`
+only tests `is_sym(key)`, not `_key_sym(key)`); a one-line extension was tried, the run then did not finish within 200 s, and
+the change was reverted untested rather than committed. Seeds 6/7.
 ''',
 'C07': '''**As built.** 1449 main templates + 393 variant + 243 near-miss templates
 generated from the live `PAT_EVENT_CODE` parse tree (quick); clauses: accepted
